@@ -4,8 +4,6 @@ From ApiFu Require Import Base.Sexp Fut.Plan Fut.Future Fut.ExecAsync Fut.ExecSy
      Fut.Live Fut.LiveFacts Fut.Acct Fut.AsyncWrap Fut.AsyncField Fut.AsyncList Fut.AsyncSel Fut.AsyncMain.
 Import ListNotations.
 
-Definition done_at (s : st) (id : nat) : bool :=
-  match nth_error (s_proms s) id with Some pr => p_done pr | None => false end.
 Definition ndone (s : st) : nat := length (filter p_done (s_proms s)).
 Definition pid_ok (s : st) : Prop := forall i pr, nth_error (s_proms s) i = Some pr -> p_id pr = i.
 
@@ -61,7 +59,7 @@ Lemma World_step ALL N G s g R G' s' g' :
   World ALL N G s g R -> Step G s g G' s' g' -> World ALL N G' s' g' R.
 Proof.
   intros W (Sg & Ss & SI & A).
-  destruct (ac_proms _ _ _ _ A) as (new & Ep & Fp & Kp).
+  destruct (ac_proms _ _ _ _ A) as (new & Ep & Kp).
   constructor.
   - exact SI.
   - eapply Acct_chans_wf; eauto. apply W.
@@ -74,13 +72,12 @@ Proof.
       destruct (in_dec chan_eq_dec (id, ok) (s_chans s')) as [X|X]; auto.
       destruct (ac_taken _ _ _ _ A (w_chans _ _ _ _ _ _ W) (w_ids _ _ _ _ _ _ W) (id, ok) Hc X) as [_ T].
       simpl in T. contradiction.
-    + exfalso. unfold done_at in Hd. rewrite Ep in Hd. rewrite nth_error_app2 in Hd by (unfold np in Hf; lia).
-      destruct (nth_error new (id - length (s_proms s))) as [pr|] eqn:E; [|discriminate].
-      rewrite Forall_forall in Fp. rewrite (Fp pr) in Hd; [discriminate|]. eapply nth_error_In; eauto.
+    + apply (ac_born _ _ _ _ A (w_chans _ _ _ _ _ _ W) (w_ids _ _ _ _ _ _ W) id Hin); [lia | exact Hd].
   - intros i pr Hi. rewrite Ep in Hi. destruct (lt_dec i (length (s_proms s))) as [Hlt|Hge].
     + rewrite nth_error_app1 in Hi by auto. now apply (w_pid _ _ _ _ _ _ W).
     + rewrite nth_error_app2 in Hi by lia. rewrite (Kp _ _ Hi). unfold np. lia.
-  - rewrite (ac_round _ _ _ _ A). unfold ndone. rewrite Ep, filter_app_nodone by auto. apply W.
+  - rewrite (ac_round _ _ _ _ A). unfold ndone. rewrite Ep, filter_app, app_length.
+    pose proof (w_rounds _ _ _ _ _ _ W) as Hr. unfold ndone in Hr. lia.
   - destruct (w_errs _ _ _ _ _ _ W) as (ls & F & S).
     destruct (ac_errs _ _ _ _ A) as (de & ls' & Ee & F' & S').
     exists (ls ++ ls'). rewrite Ee. split; [now apply Forall2_app|].
@@ -182,7 +179,7 @@ Qed.
 Lemma idle_progress sigma ALL N G s g R :
   fair sigma -> World ALL N G s g R -> Blocked s g -> exists s1, idle sigma s = Some s1.
 Proof.
-  intros F W (id & Hin & Hno). rewrite idle_unfold. cbv zeta.
+  intros F W (id & Hin & _ & Hno). rewrite idle_unfold. cbv zeta.
   set (chosen := sigma (s_round s) (outstanding s)).
   assert (Hlt : id < np s) by (apply (w_ids _ _ _ _ _ _ W); auto).
   destruct (nth_error (s_proms s) id) as [pr|] eqn:E; [|apply nth_error_None in E; unfold np in Hlt; lia].
@@ -237,7 +234,7 @@ Section Wait.
     - destruct f as [r|c]; simpl in O.
       + destruct O as [RO ->]. exists r, s, G. simpl.
         split; auto. split; auto. split; auto. split; [apply gle_refl | apply sle_refl].
-      + exfalso. destruct O as [_ (id & Hin & Hno)].
+      + exfalso. destruct O as [_ (id & Hin & _ & Hno)].
         pose proof (w_pot _ _ _ _ _ _ W). pose proof (w_rounds _ _ _ _ _ _ W). pose proof (ndone_le s).
         assert (Hlt : id < np s) by (apply (w_ids _ _ _ _ _ _ W); auto).
         assert (Hd : done_at s id = true) by (apply all_done; lia).
@@ -292,7 +289,7 @@ Section WaitSpec.
   Hypothesis LM : forall G s G' s' c g, gle G G' -> sle s s' -> L G s c g -> L G' s' c g.
 
   Lemma wait_spec fuel f s G g :
-    World ALL N G s g R -> Outcome L sp G s g f -> N <= fuel + s_round s ->
+    World ALL N G s g R -> Outcome0 L sp G s g f -> N <= fuel + s_round s ->
     exists r s' G', wait FX sigma fuel f s = Done (r, s') /\
                     World ALL N G' s' g0 R /\ ResOK G' s' sp r /\ gle G G' /\ sle s s'.
   Proof.
